@@ -8,22 +8,32 @@
      * every document object has an in-memory copy mem[h]; an operation is  load ; mutate ; save
        (clear and reset do NOT load; a mutation that raises still saves);
      * load merges the loaded data INTO the in-memory copy (SyncedDict._update): keys that exist keep
-       their position, a value that is Python-equal (==) to the new one is KEPT (DEVIATION D2), and a
-       nested mapping / list is KEPT when the new value is None (DEVIATION D3);
+       their position; a missing file leaves the copy as it is;
      * inside signac.buffered() load/save go to a class level buffer  file -> [contents, hash of the
        original text]; the first access in a block caches the file; the capacity counts the BYTES of
-       all cached contents (read-only entries included); when it is exceeded, and when the outermost
-       block exits, every registered document object is flushed in reverse order of registration;
-       the FIRST flushed object of a file decides, by comparing the text of ITS OWN in-memory copy with
-       the original text, whether the cached contents are written; the entry is then deleted
-       (DEVIATION D1: a second handle that only read loses the first handle's write);
+       all cached contents (read-only entries included); when it is exceeded (after a load or a save,
+       or when a smaller capacity is set on entering / leaving a block) and when the outermost block
+       exits, every registered document object is flushed in reverse order of registration; the FIRST
+       flushed object of a file decides, by comparing the text of ITS OWN in-memory copy with the
+       original text, whether the cached contents are written; the entry is then deleted;
      * key order is modelled (values are ordered: a mapping is a sequence of <<key, value>> pairs,
        the wire format of harness/jsonenc.py) because the text comparison above depends on it.
+   Named deviations of the pinned code from the requirements (each has a flag; FALSE = as the code;
+   the driver probes the real behaviour once and sets the flags):
+     D1  a flush is decided by the flushing object's OWN copy: a handle that only read (and was
+         registered last) discards another handle's buffered write;
+     D2  _update keeps an existing value that is Python-equal (==) to the new one: 1 / 1.0 / True are
+         never exchanged by reset / update / a load through a stale handle;
+     D3  _update keeps a nested mapping / list when the new value is None (child._update(None) is a no-op);
+     D4  a missing file leaves a stale in-memory copy (visible after a buffered block whose writes
+         cancelled out before any file existed).
+   Calibrated rule R1 (documentation silent, never flagged): pop(k) of an absent key returns None.
    The REQUIREMENTS are the property's: Faithful, ReadOwnWrites, OtherHandleSees, BufferTransparent,
    stated against the ghost ideal[f] = the plain dict the same operations produce.
    With FixedD1 = ... = FixedD4 = TRUE (a repaired dependency) TLC proves them on the bounded model; with
    the flags as probed on the real code TLC produces the shortest counterexamples, which the driver
-   replays on the real code (DESIGN 2.6). *)
+   replays on the real code (DESIGN 2.6).  The labelled state graph (-dump dot; every state carries the
+   observation `last`) is what the driver replays edge by edge. *)
 EXTENDS JsonValue, TLC
 
 CONSTANTS Files,        \* set of strings
